@@ -49,6 +49,7 @@ def jobs(tier, seed):
     out = [{"part": "translate", "here": h, "n": n} for h in heres]
     out.append({"part": "builds"})
     out += [{"part": "api", "here": h, "n": n - 1} for h in heres]
+    out.append({"part": "info"})
     return out
 
 
@@ -340,6 +341,67 @@ def run_api(spec, acc):
         os.environ.update(saved_env)
 
 
+def run_info(spec, acc):
+    """`get_info()`: the paths of the step information, recorded root-relative by the director,
+    must designate the same files when the step resolves them from its working directory; every
+    working directory (inside the root, nested, outside the root, a sibling whose name extends
+    the root's) x every recorded path (inside and outside the root), for inp, out and vol."""
+    from stepup.core import api as su_api
+    from stepup.core.stepinfo import StepInfo
+
+    top = scratch_dir("c20info")
+    root = os.path.join(top, "proj")
+    heres = [".", "a", "a/b", "b/a", "../ext", "../ext/deep", "../proj-data", "../proj-data/a"]
+    recorded = ["f", "a/f", "a/b/f", "b/f", "b/a/f", "../ext/f", "../ext/deep/f", "../proj-data/f", "../f"]
+    for d in heres + [os.path.dirname(p) or "." for p in recorded]:
+        os.makedirs(os.path.join(root, d), exist_ok=True)
+    saved_env = dict(os.environ)
+    saved_cwd = os.getcwd()
+    saved = su_api.get_rpc_client
+    try:
+        for here in heres:
+            cwd = os.path.realpath(os.path.join(root, here))
+            os.environ.update({"STEPUP_ROOT": root, "HERE": here, "ROOT": os.path.relpath(root, cwd),
+                               "STEPUP_JOB_I": "1"})
+            os.environ.pop("STEPUP_DIRECTOR_SOCKET", None)
+            os.chdir(cwd)
+            for path in recorded:
+                for role in ("inp", "out", "vol"):
+                    info = StepInfo("cmd", [path] if role == "inp" else [], [], [path] if role == "out" else [],
+                                    [path] if role == "vol" else [], here)
+
+                    class Client:
+                        @property
+                        def call(self, info=info):
+                            class P:
+                                def get_step_info(self, job_i):
+                                    return info
+                            return P()
+
+                    su_api.get_rpc_client = lambda path=None: Client()
+                    acc.evaluations += 1
+                    if here != "." or ".." in path:
+                        acc.nontrivial.add(h8(["info", here, path, role]))
+                    try:
+                        got = su_api.get_info()
+                    except Exception as exc:  # noqa: BLE001
+                        acc.violation(f"C20|get_info-raises|{here}|{path}", {"error": repr(exc)}, None)
+                        continue
+                    back = [str(x) for x in getattr(got, role)]
+                    want = real(root, path)
+                    ok = len(back) == 1 and (os.path.realpath(back[0]) if os.path.isabs(back[0])
+                                             else real(cwd, back[0])) == want
+                    if not ok:
+                        acc.violation(f"C20|get_info|{here}|{path}",
+                                      {"here": here, "recorded": path, "role": role, "handed_back": back,
+                                       "should_designate": want}, None)
+    finally:
+        su_api.get_rpc_client = saved
+        os.chdir(saved_cwd)
+        os.environ.clear()
+        os.environ.update(saved_env)
+
+
 def build_projects():
     """Sub-plans in nested and sibling working directories, paths with '..' and './'."""
     out = []
@@ -434,6 +496,8 @@ def run_job(spec):
         run_translate(spec, acc)
     elif spec["part"] == "api":
         run_api(spec, acc)
+    elif spec["part"] == "info":
+        run_info(spec, acc)
     else:
         run_builds(acc)
     return acc
